@@ -93,7 +93,8 @@ theorem forkLoop_spec (body : String → List Key → M (ForInStep (List Key))) 
         (∀ a0, OMap.lookup (f, h) s.r.hx = some a0 → (∀ m, m > s.r.nextUid → uidOf m ≠ h) →
           (∀ m, m > s.r.nextUid → OMap.lookup (f, uidOf m) s.r.hx = none) →
           OMap.lookup (f, h) s'.r.hx = some { a0 with childHeadUids := a0.childHeadUids ++ (newKeys f s.r.nextUid lps.length).map (·.2) } ∧
-          (∀ k ∈ newKeys f s.r.nextUid lps.length, ((OMap.lookup k s'.r.hx).getD {}).childHeadUids = []) ∧
+          (∀ k ∈ newKeys f s.r.nextUid lps.length, ((OMap.lookup k s'.r.hx).getD {}).childHeadUids = [] ∧
+            ((OMap.lookup k s'.r.hx).getD {}).scores = a.scores) ∧
           (∀ k : Key, k ≠ (f, h) → (∀ m, m > s.r.nextUid → k ≠ (f, uidOf m)) → OMap.lookup k s'.r.hx = OMap.lookup k s.r.hx)) := by
   intro lps
   induction lps with
@@ -153,7 +154,7 @@ theorem forkLoop_spec (body : String → List Key → M (ForInStep (List Key))) 
         rcases hk with rfl | hk
         · rw [r3 _ hnu_ne (fun m hm e => by
             have := uidOf_inj (by simpa using e : uidOf (s.r.nextUid + 1) = uidOf m); omega), hl_nu]
-          rfl
+          exact ⟨rfl, rfl⟩
         · exact r2 k (by rw [hn]; exact hk)
       · intro k hk1 hk2
         rw [r3 k hk1 (fun m hm => hk2 m (by omega)), hl_other k hk1 (hk2 _ (by omega))]
@@ -178,7 +179,8 @@ theorem slideStep_fork (fuel : Nat) (s : VM) (f : FUid) (h : HUid) (i : Inst) (x
       s'.r.nextUid = s.r.nextUid + lps.length ∧ i'.status = i.status ∧
       (∀ a0, OMap.lookup (f, h) s.r.hx = some a0 → (∀ m, m > s.r.nextUid → OMap.lookup (f, uidOf m) s.r.hx = none) →
         OMap.lookup (f, h) s'.r.hx = some { a0 with childHeadUids := a0.childHeadUids ++ (newKeys f s.r.nextUid lps.length).map (·.2) } ∧
-        (∀ k ∈ newKeys f s.r.nextUid lps.length, ((OMap.lookup k s'.r.hx).getD {}).childHeadUids = [])) := by
+        (∀ k ∈ newKeys f s.r.nextUid lps.length, ((OMap.lookup k s'.r.hx).getD {}).childHeadUids = [] ∧
+          ((OMap.lookup k s'.r.hx).getD {}).scores = a0.scores)) := by
   have hnm : NotMatchAt cfg hd.pos := notMatchAt_of cfg hd.pos _ H.hlt hel rfl
   obtain ⟨hg0, h0⟩ := setHeadStatus_ok s f h i x cfg hd .inactive H.toFlowAt H.hh H.hst hnm
   have hi1 := findInst_setStatus s.ixs.ix f h i hd .inactive none H.hi H.hh H.hst
@@ -240,7 +242,10 @@ theorem slideStep_fork (fuel : Nat) (s : VM) (f : FUid) (h : HUid) (i : Inst) (x
       exact hfresh m (by omega) (e ▸ hmem)
     obtain ⟨r1, r2, _⟩ := hhx' a0 (by rw [hhx2]; exact ha0) hhne (fun m hm => by rw [hhx2]; exact hfx0 m (by omega))
     rw [hn2] at r1 r2
-    exact ⟨r1, r2⟩
+    refine ⟨r1, fun k hk => ?_⟩
+    have := r2 k hk
+    rw [ha0] at this
+    exact this
 
 /-! ### the new heads reach their `match` elements; the whole fork segment -/
 
@@ -445,7 +450,8 @@ theorem fork_segment (fuel : Nat) (s : VM) (f : FUid) (h : HUid) (i : Inst) (x :
       x'.forkUids = OMap.insert u h x.forkUids ∧ i2.status = i.status ∧ s2.r.nextUid = s.r.nextUid + lps.length ∧
       (∀ a0, OMap.lookup (f, h) s.r.hx = some a0 → (∀ m, m > s.r.nextUid → OMap.lookup (f, uidOf m) s.r.hx = none) →
         ((OMap.lookup (f, h) s2.r.hx).getD {}).childHeadUids = a0.childHeadUids ++ (newKeys f s.r.nextUid lps.length).map (·.2) ∧
-        (∀ k ∈ newKeys f s.r.nextUid lps.length, ((OMap.lookup k s2.r.hx).getD {}).childHeadUids = [])) := by
+        (∀ k ∈ newKeys f s.r.nextUid lps.length, ((OMap.lookup k s2.r.hx).getD {}).childHeadUids = [] ∧
+          ((OMap.lookup k s2.r.hx).getD {}).scores = a0.scores)) := by
   have hnmf : NotMatchAt cfg (hd.pos + 1) := notMatchAt_of cfg (hd.pos + 1) _ hsz hfork rfl
   obtain ⟨sa, hga, hstepa, hixa, hfxa, hproga, hna, hhxa⟩ := slideStep_catch_push (fuel + 1) s f h i x cfg hd fl H hcatch hnmf
   have hia := findInst_setPos s.ixs.ix f h i hd (hd.pos + 1) none H.hi H.hh (by omega)
